@@ -80,7 +80,8 @@ else of the class map changes. -/
 theorem recv_gen {s : Sys} (hr : Reachable s) (hnl : NoLimits s.ca) (hns : NoSusp s.ca) {r : Rcn} {rc : Rc}
     {ki : KeyId} {rt : Route} (hg : get s.ca.classes r = some rc) (hroute : rc.keys.route ki = .ok rt)
     (cert : Cert) (na : Int) :
-    ∃ s', s.next (.updateRcvdCert r ki cert na []) = s' ∧ Reachable s' ∧ NoLimits s'.ca ∧ NoSusp s'.ca ∧
+    ∃ s', s.next (.updateRcvdCert r ki cert na []) = s' ∧ s.receiveOrDrop r ki cert na = s' ∧
+      Reachable s' ∧ NoLimits s'.ca ∧ NoSusp s'.ca ∧
       s'.ca.hasRepo = s.ca.hasRepo ∧ (∀ r2, r2 ≠ r → get s'.ca.classes r2 = get s.ca.classes r2) ∧
       ∃ rc', get s'.ca.classes r = some rc' ∧ rc'.parent = rc.parent ∧ rc'.parentRcn = rc.parentRcn ∧
         rc'.keys = rc.keys.receive ki cert := by
@@ -156,9 +157,10 @@ theorem recv_gen {s : Sys} (hr : Reachable s) (hnl : NoLimits s.ca) (hns : NoSus
   obtain ⟨evs, rc', hp, hon, happl, h1, h2, h3, h4, h5⟩ := hev
   obtain ⟨s', hex, happ, hr'⟩ := stored_of_process hr (c := _) (by exact trivial) hp
   have hn : s.next (.updateRcvdCert r ki cert na []) = s' := by unfold Sys.next; rw [hex]
+  have hrd : s.receiveOrDrop r ki cert na = s' := by unfold Sys.receiveOrDrop; rw [hex]
   obtain ⟨rc'', ha, hb, hc, _, he, _, _, _⟩ := applyAll_of_rc hon hg happ
   rw [happl] at ha; cases ha
-  refine ⟨s', hn, hr', ?_, ?_, he, hc, rc', hb, h1, h2, h3⟩
+  refine ⟨s', hn, hrd, hr', ?_, ?_, he, hc, rc', hb, h1, h2, h3⟩
   · intro r2 rc2 hg2
     by_cases hr2 : r2 = r
     · subst hr2; rw [hb] at hg2; cases hg2; exact h4
@@ -460,13 +462,18 @@ theorem CertStep.trans {a b c : Pair} {r n : Rcn} {K : List KeyId} (h1 : CertSte
   exact ⟨h2.ch.trans h1.ch, h2.ph.trans h1.ph, h2.inv, h1.same.trans hs2,
     fun r2 hr2 => (h2.frame r2 hr2).trans (h1.frame r2 hr2), h1.book.trans hb2 hs2, h1.used.trans hu2⟩
 
+/-- A request the parent does not answer changes nothing. -/
+theorem certRequest_of_no_answer {y : Pair} (r n : Rcn) (ki : KeyId) (na : Int)
+    (ha : y.parent.ca.answer y.ch n = none) : y.certRequest r n ki na = y := by
+  obtain ⟨e, hex⟩ := certify_refused (s := y.parent) ki na ha
+  unfold Pair.certRequest; rw [hex]
+
 /-- One certificate request for a key the class routes, with its response. -/
 theorem certRequest_gen {y : Pair} (hinv : PairInv2 y) {r : Rcn} {rc : Rc} {ki : KeyId}
     (hg : get y.child.ca.classes r = some rc) (hroute : ki ∈ rc.keys.routed) (na : Int)
     (K : List KeyId) (hK : ki ∈ K) :
     CertStep y (y.certRequest r rc.parentRcn ki na) r rc.parentRcn K ∧
-    (y.parent.ca.answer y.ch rc.parentRcn = none →
-      get (y.certRequest r rc.parentRcn ki na).child.ca.classes r = none) ∧
+    (y.parent.ca.answer y.ch rc.parentRcn = none → y.certRequest r rc.parentRcn ki na = y) ∧
     (∀ R, y.parent.ca.answer y.ch rc.parentRcn = some R →
       ∃ rc', get (y.certRequest r rc.parentRcn ki na).child.ca.classes r = some rc' ∧
         rc'.parent = rc.parent ∧ rc'.parentRcn = rc.parentRcn ∧
@@ -477,23 +484,18 @@ theorem certRequest_gen {y : Pair} (hinv : PairInv2 y) {r : Rcn} {rc : Rc} {ki :
   cases ha : y.parent.ca.answer y.ch rc.parentRcn with
   | none =>
     obtain ⟨e, hex⟩ := certify_refused (s := y.parent) ki na ha
-    have hy : y.certRequest r rc.parentRcn ki na = { y with child := y.child.next (.dropClass r) } := by
+    have hy : y.certRequest r rc.parentRcn ki na = y := by
       unfold Pair.certRequest; rw [hex]
     rw [hy]
-    obtain ⟨s', hn, d1, d2, d3, d4, d5, d6⟩ := drop_gen hinv.base.rc hinv.base.nolim hinv.nosusp hg
-    rw [hn]
-    refine ⟨⟨rfl, rfl, ⟨⟨hinv.base.rp, d1, d4.trans hinv.base.repo, d2⟩, d3⟩, ParentSame.refl _ _, d5,
-      BookRel.refl _ _, UsedRel.refl _ _ _ _⟩, fun _ => d6, fun R hR => (nomatch hR)⟩
+    exact ⟨CertStep.refl hinv r rc.parentRcn K, fun _ => rfl, fun R hR => (nomatch hR)⟩
   | some R =>
     obtain ⟨evs, p', hex, hr', hsame, hiss, hbook, c0, c0', hc0, hc0', hu1, hu2⟩ :=
       certify_stored hinv.base.rp ki na ha
-    have hy : y.certRequest r rc.parentRcn ki na =
-        { y with parent := p', child := y.child.next (.updateRcvdCert r ki (answerCert R na) na []) } := by
-      unfold Pair.certRequest; rw [hex]; simp only [hiss]; rfl
-    rw [hy]
-    obtain ⟨s', hn, c1, c2, c3, c4, c5, rc', c6, c7, c8, c9⟩ :=
+    obtain ⟨s', _, hn, c1, c2, c3, c4, c5, rc', c6, c7, c8, c9⟩ :=
       recv_gen hinv.base.rc hinv.base.nolim hinv.nosusp hg hrt (answerCert R na) na
-    rw [hn]
+    have hy : y.certRequest r rc.parentRcn ki na = { y with parent := p', child := s' } := by
+      unfold Pair.certRequest; rw [hex]; simp only [hiss]; rw [← hn]; rfl
+    rw [hy]
     refine ⟨⟨rfl, rfl, ⟨⟨hr', c1, c4.trans hinv.base.repo, c2⟩, c3⟩, hsame, c5, hbook, ?_⟩,
       fun h => (nomatch h), ?_⟩
     · intro c hc
@@ -514,15 +516,14 @@ theorem certRequest_gen {y : Pair} (hinv : PairInv2 y) {r : Rcn} {rc : Rc} {ki :
 
 /-- The certificate requests of a class, one after the other (`send_cert_requests_handle_responses`
 for one class): with an answering parent the key state receives the answer's certificate for
-every requested key; a refusing parent makes the child drop the class at the first request. -/
+every requested key; a refusing parent leaves everything as it is (the requests stay open). -/
 theorem certRequests_fold (r n : Rcn) (na : Int) (K : List KeyId) :
     ∀ (L : List KeyId) (y : Pair) (rc1 : Rc), PairInv2 y → get y.child.ca.classes r = some rc1 →
       rc1.parentRcn = n → (∀ ki ∈ L, ki ∈ rc1.keys.routed) → (∀ ki ∈ L, ki ∈ K) →
       CertStep y (L.foldl (fun y ki =>
         if (get y.child.ca.classes r).isSome then y.certRequest r n ki na else y) y) r n K ∧
       (y.parent.ca.answer y.ch n = none →
-        (L = [] ∨ get (L.foldl (fun y ki =>
-          if (get y.child.ca.classes r).isSome then y.certRequest r n ki na else y) y).child.ca.classes r = none)) ∧
+        L.foldl (fun y ki => if (get y.child.ca.classes r).isSome then y.certRequest r n ki na else y) y = y) ∧
       (∀ R, y.parent.ca.answer y.ch n = some R →
         ∃ rc', get (L.foldl (fun y ki =>
             if (get y.child.ca.classes r).isSome then y.certRequest r n ki na else y) y).child.ca.classes r = some rc' ∧
@@ -538,7 +539,7 @@ theorem certRequests_fold (r n : Rcn) (na : Int) (K : List KeyId) :
   | nil =>
     intro y rc1 hinv hg hn _ _
     simp only [List.foldl_nil]
-    exact ⟨CertStep.refl hinv r n K, fun _ => Or.inl trivial, fun R _ => ⟨rc1, hg, rfl, rfl, rfl, fun _ h => (nomatch h)⟩⟩
+    exact ⟨CertStep.refl hinv r n K, fun _ => trivial, fun R _ => ⟨rc1, hg, rfl, rfl, rfl, fun _ h => (nomatch h)⟩⟩
   | cons ki t ih =>
     intro y rc1 hinv hg hn hrouted hK
     simp only [List.foldl_cons, hg, Option.isSome_some, if_true]
@@ -547,19 +548,18 @@ theorem certRequests_fold (r n : Rcn) (na : Int) (K : List KeyId) :
     rw [hn] at hst hno hyes
     cases ha : y.parent.ca.answer y.ch n with
     | none =>
-      have hgone := hno ha
-      -- the class is gone: the remaining requests are skipped
-      have hskip : ∀ (t : List KeyId) (w : Pair), get w.child.ca.classes r = none →
-          t.foldl (fun y ki => if (get y.child.ca.classes r).isSome then y.certRequest r n ki na else y) w = w := by
+      have hsame := hno ha
+      -- the parent refuses: every request leaves the pair as it is
+      have hskip : ∀ (t : List KeyId),
+          t.foldl (fun y ki => if (get y.child.ca.classes r).isSome then y.certRequest r n ki na else y) y = y := by
         intro t
         induction t with
-        | nil => intro w _; rfl
+        | nil => rfl
         | cons k t iht =>
-          intro w hw
-          simp only [List.foldl_cons, hw, Option.isSome_none, Bool.false_eq_true, if_false]
-          exact iht w hw
-      rw [hskip t _ hgone]
-      exact ⟨hst, fun _ => Or.inr hgone, fun R hR => (nomatch hR)⟩
+          simp only [List.foldl_cons, hg, Option.isSome_some, if_true, certRequest_of_no_answer r n k na ha]
+          exact iht
+      rw [hsame, hskip t]
+      exact ⟨CertStep.refl hinv r n K, fun _ => rfl, fun R hR => (nomatch hR)⟩
     | some R =>
       obtain ⟨rc1', g1, g2, g3, g4, c, g5, g6⟩ := hyes R ha
       have hans1 : (y.certRequest r n ki na).parent.ca.answer (y.certRequest r n ki na).ch n = some R := by
@@ -663,7 +663,8 @@ every certificate request is answered and stored, i.e. the key state makes `KeyS
 a refusing parent makes the child drop the class at its first certificate request. -/
 theorem classRequests_gen {y : Pair} (hinv : PairInv2 y) (r : Rcn) (na now : Int) {rc : Rc}
     (hg : get y.child.ca.classes r = some rc) (hp : rc.parent = y.ph) (hwf : rc.keys.wf = true)
-    (hleave : ∀ k ∈ rc.keys.revoked, InUse y.parent.ca y.ch rc.parentRcn k) :
+    (hleave : ∀ k ∈ rc.keys.revoked, InUse y.parent.ca y.ch rc.parentRcn k)
+    (hansw : rc.keys.certRequests ≠ [] → ∃ R, y.parent.ca.answer y.ch rc.parentRcn = some R) :
     ReqStep2 y (y.classRequests r na) r rc.keys.revoked rc.keys.keyIds ∧
     (rc.keys.hasPending = false → y.classRequests r na = y) ∧
     (∀ k, InUse y.parent.ca y.ch rc.parentRcn k → k ∉ rc.keys.revoked →
@@ -780,12 +781,16 @@ theorem classRequests_gen {y : Pair} (hinv : PairInv2 y) (r : Rcn) (na now : Int
     rw [a1] at hur
     exact hur.inUse hu1
   · intro hpend hnone
-    rcases hno (hans.trans hnone) with hnil | hgone
-    · right
-      rw [hnil]
-      simp only [List.foldl_nil]
-      exact ⟨rc1, a6, a7, a8, a9, by rw [← hL]; exact hnil⟩
-    · exact Or.inl hgone
+    have hnil : rc.keys.certRequests = [] := by
+      cases hl : rc.keys.certRequests with
+      | nil => rfl
+      | cons k t =>
+        obtain ⟨R, hR⟩ := hansw (by rw [hl]; simp)
+        rw [hnone] at hR; cases hR
+    right
+    rw [hnil]
+    simp only [List.foldl_nil]
+    exact ⟨rc1, a6, a7, a8, a9, by rw [← hL]; exact hnil⟩
   · intro R hpend hsome
     obtain ⟨rc', g1, g2, g3, g4, g5⟩ := hyes R (hans.trans hsome)
     refine ⟨rc', g1, g2.trans a7, g3.trans a8, ?_, ?_⟩
